@@ -110,11 +110,11 @@ CONFIGS: Dict[str, Dict[str, List[Dict[str, Any]]]] = {
         ],
     },
     "Tetris": {
-        "quick": [_c("default"), _c("r6c5L3", rows=6, cols=5, time_limit=3)],
+        "quick": [_c("default"), _c("r6c5L3", rows=6, cols=5, time_limit=3), _c("r5c8L12", rows=5, cols=8, time_limit=12)],
         "thorough": [
             _c("default"), _c("r4c4L3", rows=4, cols=4, time_limit=3), _c("r6c5L3", rows=6, cols=5, time_limit=3), _c("r6c5L7", rows=6, cols=5, time_limit=7),
             _c("r5c12L30", rows=5, cols=12, time_limit=30), _c("r10c6L2", rows=10, cols=6, time_limit=2),
-            _c("r7c4L1", rows=7, cols=4, time_limit=1),
+            _c("r7c4L1", rows=7, cols=4, time_limit=1), _c("r5c8L12", rows=5, cols=8, time_limit=12),
         ],
     },
     "Cleaner": {
